@@ -173,9 +173,9 @@ func (d Date) ISOYearDay() int {
 	return datetime.ISOYearDay()
 }
 
-func (d Date) AddDateSpan(val DateSpan) Date {
+func (d Date) AddDateSpan(val DateSpan) (Date, Value) {
 	datetime := d.ToDateTimeValue()
-	return datetime.AddDateSpan(val).Date()
+	return datetime.AddDateSpan(val).CheckedDate()
 }
 
 func (d Date) AddTimeSpan(val TimeSpan) *DateTime {
@@ -191,7 +191,7 @@ func (d Date) AddDateTimeSpan(val *DateTimeSpan) *DateTime {
 func (d Date) Subtract(val Value) (Value, Value) {
 	switch val.flag {
 	case DATE_SPAN_FLAG:
-		return d.SubtractDateSpan(val.AsInlineDateSpan()).ToValue(), Undefined
+		return dateResult(d.SubtractDateSpan(val.AsInlineDateSpan()))
 	case DATE_FLAG:
 		return d.DiffDate(val.AsDate()).ToValue(), Undefined
 	case REFERENCE_FLAG:
@@ -201,17 +201,24 @@ func (d Date) Subtract(val Value) (Value, Value) {
 
 	switch v := val.AsReference().(type) {
 	case DateSpan:
-		return d.SubtractDateSpan(v).ToValue(), Undefined
+		return dateResult(d.SubtractDateSpan(v))
 	default:
 		return Undefined, Ref(NewArgumentTypeError("other", val.Class().Inspect(), DateClass.Inspect()))
 	}
 }
 
+func dateResult(d Date, err Value) (Value, Value) {
+	if !err.IsUndefined() {
+		return Undefined, err
+	}
+	return d.ToValue(), Undefined
+}
+
 // Subtracts the given date span from the date.
-func (d Date) SubtractDateSpan(val DateSpan) Date {
+func (d Date) SubtractDateSpan(val DateSpan) (Date, Value) {
 	result := d.ToDateTime()
 	result = result.SubtractDateSpan(val)
-	return result.Date()
+	return result.CheckedDate()
 }
 
 // Subtracts the given time span from the date.
@@ -237,7 +244,7 @@ func (d Date) Diff(val Value) (Value, Value) {
 
 	switch v := val.AsReference().(type) {
 	case DateSpan:
-		return d.SubtractDateSpan(v).ToValue(), Undefined
+		return dateResult(d.SubtractDateSpan(v))
 	case *DateTimeSpan:
 		return Ref(d.SubtractDateTimeSpan(v)), Undefined
 	default:
